@@ -91,13 +91,13 @@ utf8_contract!(contract_utf8_l4, 4);
 utf8_contract!(contract_utf8_l5, 5);
 utf8_contract!(contract_utf8_l6, 6);
 
-//@ unit name=c02_utf8_len1 props=C02,C08,C15 tier=quick kind=complete timeout=300 funcs="encode_to_utf8like; utf8like_bytesize"
-//@ unit name=c02_utf8_len2 props=C02,C08,C15 tier=quick kind=complete timeout=300 funcs="encode_to_utf8like; utf8like_bytesize"
-//@ unit name=c02_utf8_len3 props=C02,C08,C15 tier=quick kind=complete timeout=300 funcs="encode_to_utf8like; utf8like_bytesize"
-//@ unit name=c02_utf8_len4 props=C02,C08,C15 tier=quick kind=complete timeout=300 funcs="encode_to_utf8like; utf8like_bytesize"
-//@ unit name=c02_utf8_len5 props=C02,C08,C15 tier=quick kind=complete timeout=300 funcs="encode_to_utf8like; utf8like_bytesize"
-//@ unit name=c02_utf8_len6 props=C02,C08,C15 tier=quick kind=complete timeout=300 funcs="encode_to_utf8like; utf8like_bytesize"
-//@ unit name=c02_utf8_len7 props=C02,C08,C15 tier=quick kind=complete timeout=300 funcs="encode_to_utf8like; utf8like_bytesize"
+//@ unit name=c02_utf8_len1 props=C02,C08,C15,C18 tier=quick kind=complete timeout=300 funcs="encode_to_utf8like; utf8like_bytesize"
+//@ unit name=c02_utf8_len2 props=C02,C08,C15,C18 tier=quick kind=complete timeout=300 funcs="encode_to_utf8like; utf8like_bytesize"
+//@ unit name=c02_utf8_len3 props=C02,C08,C15,C18 tier=quick kind=complete timeout=300 funcs="encode_to_utf8like; utf8like_bytesize"
+//@ unit name=c02_utf8_len4 props=C02,C08,C15,C18 tier=quick kind=complete timeout=300 funcs="encode_to_utf8like; utf8like_bytesize"
+//@ unit name=c02_utf8_len5 props=C02,C08,C15,C18 tier=quick kind=complete timeout=300 funcs="encode_to_utf8like; utf8like_bytesize"
+//@ unit name=c02_utf8_len6 props=C02,C08,C15,C18 tier=quick kind=complete timeout=300 funcs="encode_to_utf8like; utf8like_bytesize"
+//@ unit name=c02_utf8_len7 props=C02,C08,C15,C18 tier=quick kind=complete timeout=300 funcs="encode_to_utf8like; utf8like_bytesize"
 macro_rules! utf8_harness {
     ($name:ident, $l:expr) => {
         #[kani::proof]
